@@ -1094,3 +1094,15 @@ def _m_strip(mod):
         return False
 
     return mod if replace_in_func(mod, "ASTListener.exitString_comment", edit) else None
+
+
+@SPEC.mutant("only expression bindings become the value modification", PARSER, "R04.17", "stored on the symbol")
+def _m_range_binding(mod):
+    def edit(fn):
+        for st in ast.walk(fn):
+            if isinstance(st, ast.If) and "isinstance" in norm(st.test) and "ClassModification" in norm(st.test) and st.orelse:
+                st.orelse = [ast.If(test=ast.parse("isinstance(mod, ast.Expression)", mode="eval").body, body=st.orelse, orelse=[])]
+                return True
+        return False
+
+    return mod if replace_in_func(mod, "ASTListener.exitDeclaration", edit) else None
